@@ -15,6 +15,11 @@ pub enum Case {
     /// `n` pseudo-random elements derived from `seed` (accuracy clause)
     Accuracy { n: u32, seed: u64, offset: u8 },
     BadOffset { offset: u32 },
+    /// offsets near usize::MAX (usize::MAX - back)
+    HugeOffset { back: u8 },
+    /// elements built to land in a given bucket with a given rho (leading zero bits after the bucket byte + 1);
+    /// the expected register array is known exactly: per bucket the maximum rho
+    Crafted { items: Vec<(u8, u8)>, perm: Vec<u16>, offset: u8, split: u8 },
 }
 
 pub struct C20;
@@ -29,6 +34,17 @@ fn sketch(elems: &[[u8; 32]], offset: usize) -> Result<Hll8, String> {
         h.add_element(e, offset).map_err(|x| x.to_string())?;
     }
     Ok(h)
+}
+
+fn diff_regs(got: &str, exp: &str) -> String {
+    let mut out = String::new();
+    for i in 0..256 {
+        let (g, e) = (&got[2 * i..2 * i + 2], &exp[2 * i..2 * i + 2]);
+        if g != e {
+            out.push_str(&format!("register {i}: {g} (expected {e}); "));
+        }
+    }
+    out
 }
 
 fn merged(a: &Hll8, b: &Hll8) -> Hll8 {
@@ -77,6 +93,8 @@ impl Prop for C20 {
             "register value 0..=255 at positions {0,1,17,100,127,128,254,255} on an all-zero and an all-5 background".into(),
             "offsets 0..=40".into(),
             "cardinalities {100,300,1000,5000,20000} x offsets {0,8,16,23}".into(),
+            "offsets usize::MAX-39..=usize::MAX".into(),
+            "all ordered pairs of rho values 1..=12 in one bucket (exact register model)".into(),
         ]
     }
     fn enumerate(&self, _tier: Tier) -> Vec<Case> {
@@ -96,6 +114,15 @@ impl Prop for C20 {
         v.push(Case::Registers { hex: hex(&[63u8; 256]) });
         for o in 0..=40u32 {
             v.push(Case::BadOffset { offset: o });
+        }
+        for back in 0..40u8 {
+            v.push(Case::HugeOffset { back });
+        }
+        // every pair (rho a first, rho b second) in one bucket, for rho 1..=12: the register must be max(a, b)
+        for a in 1..=12u8 {
+            for b in 1..=12u8 {
+                v.push(Case::Crafted { items: vec![(7, a), (7, b)], perm: vec![0, 1], offset: (a + b) % 24, split: 1 });
+            }
         }
         for n in [100u32, 300, 1000, 5000, 20000] {
             for offset in [0u8, 8, 16, 23] {
@@ -123,6 +150,14 @@ impl Prop for C20 {
             3 => prop::collection::vec(prop_oneof![3 => 0u8..40, 1 => any::<u8>(), 1 => Just(64u8), 1 => Just(63u8)], 256).prop_map(|r| Case::Registers { hex: hex(&r) }),
             1 => (prop::sample::select(vec![100u32, 300, 1000, 5000]), any::<u64>(), 0u8..24).prop_map(|(n, seed, offset)| Case::Accuracy { n, seed, offset }),
             1 => (24u32..100_000).prop_map(|offset| Case::BadOffset { offset }),
+            1 => (0u8..40).prop_map(|back| Case::HugeOffset { back }),
+            4 => (
+                prop::collection::vec((prop::sample::select(vec![0u8, 1, 7, 128, 254, 255]), prop_oneof![3 => 1u8..12, 1 => 1u8..64]), 1..14),
+                prop::collection::vec(any::<u16>(), 14),
+                0u8..24,
+                any::<u8>(),
+            )
+                .prop_map(|(items, perm, offset, split)| Case::Crafted { items, perm, offset, split }),
         ]
         .boxed()
     }
@@ -250,6 +285,86 @@ impl Prop for C20 {
                         }
                     }
                     Ok(Err(e)) => out.fail("C20:add-failed", e),
+                    Err(f) => out.fail(format!("C20:{}", f.key), f.detail),
+                }
+            }
+            Case::HugeOffset { back } => {
+                out.label("offset");
+                out.nontrivial = true;
+                let off = usize::MAX - *back as usize;
+                let r = guard("Hll8::add_element", || {
+                    let mut h = Hll8::new();
+                    let r = h.add_element(&[0xAB; 32], off);
+                    (r.is_ok(), h.to_hex_string() == Hll8::new().to_hex_string())
+                });
+                match r {
+                    Ok((ok, unchanged)) => {
+                        if ok {
+                            out.fail("C20:offset>=24-accepted", format!("offset usize::MAX-{back} accepted"));
+                        } else if !unchanged {
+                            out.fail("C20:refused-add-changed-sketch", format!("offset usize::MAX-{back}"));
+                        }
+                    }
+                    Err(f) => out.fail(format!("C20:{}", f.key), f.detail),
+                }
+            }
+            Case::Crafted { items, perm, offset, split } => {
+                out.label("crafted");
+                let offset = *offset as usize;
+                // build an element with the given bucket byte and rho at this offset
+                let make = |bucket: u8, rho: u8, salt: u8| -> ([u8; 32], u8) {
+                    let mut e = [salt | 1; 32];
+                    e[offset] = bucket;
+                    let avail_bits = (8 * (31 - offset)) as u32;
+                    let zeros = ((rho as u32).saturating_sub(1)).min(avail_bits);
+                    // clear `zeros` leading bits after the bucket byte, then a one bit (if there is room)
+                    let mut bit = 0u32;
+                    for i in offset + 1..32 {
+                        for b in (0..8).rev() {
+                            if bit < zeros {
+                                e[i] &= !(1 << b);
+                            } else if bit == zeros {
+                                e[i] |= 1 << b;
+                            }
+                            bit += 1;
+                        }
+                    }
+                    (e, (zeros + 1) as u8)
+                };
+                let els: Vec<([u8; 32], u8, u8)> = items.iter().enumerate().map(|(i, (b, r))| { let (e, rho) = make(*b, *r, (i as u8).wrapping_mul(16)); (e, *b, rho) }).collect();
+                let mut expect = [0u8; 256];
+                for (_, b, rho) in &els {
+                    expect[*b as usize] = expect[*b as usize].max(*rho);
+                }
+                let expect_hex = hex(&expect);
+                let same_bucket = els.iter().enumerate().any(|(i, x)| els.iter().skip(i + 1).any(|y| x.1 == y.1 && x.2 != y.2));
+                out.nontrivial = same_bucket;
+                if same_bucket {
+                    out.label("same-bucket-different-rho");
+                }
+                let mut order: Vec<usize> = (0..els.len()).collect();
+                order.sort_by_key(|i| perm.get(*i).copied().unwrap_or(0));
+                let r = guard("Hll8 crafted", || -> Result<(), (String, String)> {
+                    // given order, permuted order, and split into two sketches that are merged
+                    for (name, ord) in [("given-order", (0..els.len()).collect::<Vec<_>>()), ("permuted-order", order.clone())] {
+                        let v: Vec<[u8; 32]> = ord.iter().map(|i| els[*i].0).collect();
+                        let h = sketch(&v, offset).map_err(|x| ("add-failed".to_string(), x))?;
+                        if regs(&h) != expect_hex {
+                            return Err((format!("registers-differ-from-model:{name}"), format!("items (bucket, rho) {:?} at offset {offset}: registers {} expected {}", items, diff_regs(&regs(&h), &expect_hex), "max rho per bucket")));
+                        }
+                    }
+                    let k = (*split as usize) % (els.len() + 1);
+                    let a: Vec<[u8; 32]> = order[..k].iter().map(|i| els[*i].0).collect();
+                    let b: Vec<[u8; 32]> = order[k..].iter().map(|i| els[*i].0).collect();
+                    let m = merged(&sketch(&a, offset).map_err(|x| ("add-failed".to_string(), x))?, &sketch(&b, offset).map_err(|x| ("add-failed".to_string(), x))?);
+                    if regs(&m) != expect_hex {
+                        return Err(("registers-differ-from-model:merge".into(), format!("items {:?}: {}", items, diff_regs(&regs(&m), &expect_hex))));
+                    }
+                    Ok(())
+                });
+                match r {
+                    Ok(Ok(())) => {}
+                    Ok(Err((k, d))) => out.fail(format!("C20:{k}"), d),
                     Err(f) => out.fail(format!("C20:{}", f.key), f.detail),
                 }
             }
